@@ -24,6 +24,7 @@ type c05Spec struct {
 	Fmt    string `json:"fmt"`
 	Cols   int    `json:"cols"` // 0 = date only, 1 = every supported variable kind
 	Rot    int    `json:"rot"`  // 0 = no crop, 1..3 rotation variants
+	Text   bool   `json:"text,omitempty"` // numerically unstable N transport: the text-valued status variables get filled
 }
 
 var c05Starts = []string{"2003-12-30", "2003-12-31", "2004-01-01", "2004-02-27", "2004-02-28", "2004-02-29", "2004-03-01", "2003-02-28", "2003-03-01", "2004-06-15", "2001-09-29"}
@@ -59,6 +60,12 @@ func c05Specs(tier string, seed int) []c05Spec {
 					}
 				}
 			}
+		}
+	}
+	// text-valued variables filled by the model (transport instability flag) in daily, yearly and crop records
+	for style := 0; style < 2; style++ {
+		for _, k := range []int{1, 2} {
+			out = append(out, c05Spec{Start: "2001-04-10", Len: 14, Annual: "end-1", K: k, Style: style, Fmt: "DateDElong", Cols: 1, Text: true})
 		}
 	}
 	// rotations: 1-3 harvested crops, end date before / on / after each harvest date
@@ -178,8 +185,20 @@ func c05Run(raw json.RawMessage, c *mc.Ctx) {
 	if sp.Cols == 1 {
 		dcols = c05AllKinds
 	}
+	ycols, ccols := c05YearCols, c05CropCols
+	if sp.Text {
+		// peat profile, dry start, extreme rain: the transport routine flags itself unstable and fills its status texts
+		b.Soil, b.InitW, b.InitN = "peat12", 0.2, 200
+		p = e1Project(b, sp.Len+1)
+		p.Config["Dateformat"], p.Config["EndDate"], p.Config["AnnualOutputDate"] = sp.Fmt, proj.DateStr(sp.Fmt, end), annCfg
+		p.Config["OutputIntervall"], p.Config["ResultFileFormat"], p.Config["ResultFileExt"] = fmt.Sprint(sp.K), fmt.Sprint(sp.Style), "res"
+		p.Rotation = append(p.Rotation[:1], proj.CropEntry{Crop: "SW", Sow: isoAdd(sp.Start, 2), Harvest: isoAdd(sp.Start, 12), Rex: 50}, proj.CropEntry{Crop: "SM", Sow: "2010-04-20", Harvest: "2010-10-01"})
+		dcols = append(append([]c05Col{}, c05AllKinds...), c05Col{"C1NotStable", "%s"})
+		ycols = append(append([]c05Col{}, c05YearCols...), c05Col{"C1NotStableErr", "%s"})
+		ccols = append(append([]c05Col{}, c05CropCols...), c05Col{"NotStableErr", "%s"})
+	}
 	const width = 16
-	p.DailyCols, p.YearlyCols, p.CropCols = c05Config(dcols, width), c05Config(c05YearCols, width), c05Config(c05CropCols, width)
+	p.DailyCols, p.YearlyCols, p.CropCols = c05Config(dcols, width), c05Config(ycols, width), c05Config(ccols, width)
 	// weather: from 3 days before the start to well after the (possibly extended) end
 	lastAnn := annualIn(end.Year())
 	wend := end
@@ -193,6 +212,9 @@ func c05Run(raw json.RawMessage, c *mc.Ctx) {
 		p.Weather[i] = sigma["mild"]
 		if sp.Rot > 0 {
 			p.Weather[i] = sigma["grow"]
+		}
+		if sp.Text && (i == 5 || i == 6 || i == 9) {
+			p.Weather[i] = sigma["extreme"]
 		}
 	}
 	p.Write(root)
@@ -295,7 +317,7 @@ func c05Run(raw json.RawMessage, c *mc.Ctx) {
 	}
 	var gotY []string
 	for i, l := range records("Y") {
-		f := fieldsOf(l, len(c05YearCols), "yearly", i)
+		f := fieldsOf(l, len(ycols), "yearly", i)
 		gotY = append(gotY, f[0])
 		c.Transition(1)
 	}
@@ -306,6 +328,11 @@ func c05Run(raw json.RawMessage, c *mc.Ctx) {
 	c05Compare(c, label, "yearly", wantYearly, wantYearlyExt, gotY, ext)
 	// ---- crop file
 	var wantCrop, wantCropExt, gotC []string
+	if sp.Text {
+		h := proj.D(isoAdd(sp.Start, 12))
+		wantCrop = []string{fmt.Sprintf("SW %d %d", h.Year(), h.YearDay())}
+		wantCropExt = wantCrop
+	}
 	if sp.Rot > 0 {
 		for _, r := range c05Rot[:sp.Rot] {
 			h := proj.D(r.Harvest)
@@ -319,7 +346,7 @@ func c05Run(raw json.RawMessage, c *mc.Ctx) {
 		}
 	}
 	for i, l := range records("C") {
-		f := fieldsOf(l, len(c05CropCols), "crop", i)
+		f := fieldsOf(l, len(ccols), "crop", i)
 		if len(f) >= 3 {
 			gotC = append(gotC, fmt.Sprintf("%s %s %s", f[0], f[1], f[2]))
 		} else {
@@ -328,6 +355,12 @@ func c05Run(raw json.RawMessage, c *mc.Ctx) {
 		c.Transition(1)
 	}
 	c05Compare(c, label, "crop", wantCrop, wantCropExt, gotC, ext)
+	if sp.Text {
+		if !strings.Contains(res.File("V")+res.File("Y")+res.File("C"), "unstable") {
+			mc.HarnessError("C05 text scenario: the transport never flagged itself unstable (no status text was written)")
+		}
+		c.Outcome("status-text-written")
+	}
 	c.Outcome(fmt.Sprintf("ok style=%d k=%d", sp.Style, sp.K))
 	c.Sample(sp)
 }
